@@ -39,7 +39,7 @@ RULE = ("classes over the serializable fragment (20% with lossy kinds); document
 ASSUMPTIONS = [
     "mapper-free; fail-fast mode (the default); AnyOf/OneOf/AllOf/NotField fields other than Optional are corresponded but have no lifting spec (they need the validation result to choose an option)",
     "an array for a Set field that holds values == to each other but of different JSON type (1 / true / 1.0), and AnyOf[DecimalNumber(bounds), Integer] (two options reading the same JSON type) are ambiguous and excluded from the both-directions oracle",
-    "compact deserialization, _enable_undefined_value classes, raw values of a mixin enum, NaN / Infinity Decimals and a DateTime read from an epoch integer are not in the Lean model (oracle-only); float(Decimal), Decimal(str), strptime, strftime and the format tests are oracles of the model",
+    "compact deserialization, raw values of a mixin enum, NaN / Infinity Decimals and a DateTime read from an epoch integer are not in the Lean model (oracle-only); float(Decimal), Decimal(str), strptime, strftime and the format tests are oracles of the model",
 ]
 
 
